@@ -1,5 +1,5 @@
 #!/usr/bin/env python3
-"""Apply each behaviour-preserving refactoring patch under /tmp/refout/<id>/r*.diff to /repo,
+"""Apply each behaviour-preserving refactoring patch under /verif/refactorings/<id>/r*.diff to /repo,
 run ALL checks (quick), report any alarm (exit != 0 / VIOLATION / UNDECIDED), undo."""
 import glob, os, subprocess, sys, shutil, re
 only = sys.argv[1:]
@@ -8,7 +8,7 @@ os.makedirs('/tmp/sweep-verif', exist_ok=True); shutil.copy('/verif/known_findin
 shutil.rmtree('/tmp/sweep-verif/baseline', ignore_errors=True); shutil.copytree('/verif/baseline', '/tmp/sweep-verif/baseline')
 shutil.rmtree('/tmp/sweep-verif/mutants', ignore_errors=True)
 bad = 0
-for d in sorted(glob.glob('/tmp/refout/C*')):
+for d in sorted(glob.glob("/verif/refactorings/C*")):
     pid = os.path.basename(d)
     if only and pid not in only: continue
     for p in sorted(glob.glob(d + '/r*.diff')):
